@@ -169,7 +169,10 @@ Definition clone_roots (h : heap) (fuel : nat) (roots : list loc) (n0 : loc) : r
   clone_list (clone_loc h fuel) roots (init n0).
 
 (* ---- the runtime record around the heap ---- *)
-Record runtime := mkRt { rt_global : loc; rt_fields : list loc; rt_eval : loc }.
+(* rt_cfg: the host settings of the runtime that are not heap references and that
+   runtime.clone copies verbatim (debugger handler, random source, stack depth limit,
+   stack trace limit), as opaque integers *)
+Record runtime := mkRt { rt_global : loc; rt_fields : list loc; rt_eval : loc; rt_cfg : list Z }.
 
 Inductive rres :=
 | ROk (h' : heap) (phi : list (loc * loc)) (rt' : runtime)
@@ -184,7 +187,7 @@ Definition clone_runtime (h : heap) (fuel : nat) (rt : runtime) (n0 : loc) : rre
   match clone_roots h fuel (rt_global rt :: rt_fields rt ++ [rt_eval rt]) n0 with
   | Ok s =>
       let f := app_memo (memo s) in
-      ROk (out s) (memo s) (mkRt (f (rt_global rt)) (map f (rt_fields rt)) (f (rt_eval rt)))
+      ROk (out s) (memo s) (mkRt (f (rt_global rt)) (map f (rt_fields rt)) (f (rt_eval rt)) (rt_cfg rt))
   | Fuel => RFuel
   | Panic => RPanic
   end.
